@@ -39,6 +39,7 @@ var Def = driver.PropDef{
 }
 
 type rx struct {
+	opaque  bool    // a helper that is handed the element could not be followed
 	pipeReg *region // where the DUMP/PTTL pipelines live (doFetch or a one-level helper)
 	c       *core.Ctx
 	info    *types.Info
@@ -69,7 +70,7 @@ func Run(c *core.Ctx) {
 	x.dbs()
 	x.errors()
 	for rule, n := range map[string]int{"R1.access": 2, "R1.close": 3, "R1.exec-loop": 2, "R1.spawn": 3, "R2.restore-send": 4, "R2.batch": 3, "R2.forward": 2,
-		"R2.receive": 2, "R2.bigkey": 4, "R3.ttl": 3, "R3.db": 2, "R3.select": 12, "R4.align": 4, "R4.pipeline": 3, "R4.keys": 3, "R5.loop": 3, "R5.scanner": 5, "R5.dbs": 3, "R6.error": 14} {
+		"R2.receive": 2, "R2.bigkey": 4, "R3.ttl": 3, "R3.db": 2, "R3.select": 10, "R4.align": 4, "R4.pipeline": 3, "R4.keys": 3, "R5.loop": 3, "R5.scanner": 5, "R5.dbs": 3, "R6.error": 14} {
 		c.Expect(rule, n)
 	}
 }
@@ -471,6 +472,152 @@ func (x *rx) exec() {
 
 // ---- R2/R3 writer
 
+// wscope is a function body in which the element taken from keyChan is known under the name ele: the writer's
+// loop, or a same-package helper that is handed the element (parameter bound to the argument).
+type wscope struct {
+	g    *cfgq.Graph
+	ele  types.Object
+	root ast.Node
+}
+
+// wprop is a property of the element's treatment that a node establishes when executed ("pttl was set to 0") or
+// that an edge establishes when taken ("pttl != -1").
+type wprop struct {
+	node func(sc *wscope, n ast.Node) bool
+	fact func(sc *wscope, f cfgq.Fact) bool
+}
+
+// sub follows a call that hands the element to a function of this package.
+func (x *rx) sub(sc *wscope, call *ast.CallExpr) *wscope {
+	idx := -1
+	for i, a := range call.Args {
+		if core.ObjOf(x.info, a) == sc.ele {
+			idx = i
+		}
+	}
+	if idx < 0 {
+		return nil
+	}
+	f := core.CalleeFunc(x.info, call)
+	if f == nil {
+		return nil // builtin (append)
+	}
+	h := x.c.FnOf(f)
+	if h == nil || h.Decl.Body == nil || h.Pkg != x.fn["writer"].Pkg {
+		if f.Pkg() != nil && strings.HasPrefix(f.Pkg().Path(), core.Module) && !strings.HasSuffix(f.Pkg().Path(), "/log") {
+			x.opaque = true
+		}
+		return nil
+	}
+	i := 0
+	for _, fl := range h.Decl.Type.Params.List {
+		for _, nm := range fl.Names {
+			if i == idx {
+				x.c.Functions[h.Name()] = true
+				return &wscope{g: cfgq.Of(x.c.Program, h), ele: x.info.Defs[nm], root: h.Decl.Body}
+			}
+			i++
+		}
+	}
+	return nil
+}
+
+const maxFollow = 2
+
+// nodeHas: executing n establishes p, directly or because n calls a helper all of whose normal returns do.
+func (x *rx) nodeHas(sc *wscope, p wprop, n ast.Node, depth int) bool {
+	if p.node != nil && p.node(sc, n) {
+		return true
+	}
+	if depth >= maxFollow {
+		return false
+	}
+	for _, call := range cfgq.ExecCalls(n) {
+		if hs := x.sub(sc, call); hs != nil && x.summary(hs, p, nil, depth+1) {
+			return true
+		}
+	}
+	return false
+}
+
+// edgeHas: leaving b through successor s establishes p: by a fact of the condition, or because the condition is
+// the outcome of a predicate helper all of whose returns with that outcome establish p.
+func (x *rx) edgeHas(sc *wscope, p wprop, b *cfg.Block, s int, depth int) bool {
+	return c07.EdgeFact(sc.g, b, s, func(f cfgq.Fact) bool {
+		if p.fact != nil && p.fact(sc, f) {
+			return true
+		}
+		call, ok := ast.Unparen(f.Expr).(*ast.CallExpr)
+		if !ok || depth >= maxFollow {
+			return false
+		}
+		hs := x.sub(sc, call)
+		val := f.Val
+		return hs != nil && x.summary(hs, p, &val, depth+1)
+	})
+}
+
+// summary: every path of the helper to a normal return (with the given boolean outcome, if any) establishes p.
+func (x *rx) summary(hs *wscope, p wprop, outcome *bool, depth int) bool {
+	w := hs.g.Path(cfgq.Query{From: hs.g.Entry(),
+		Avoid:     func(n ast.Node) bool { return x.nodeHas(hs, p, n, depth) },
+		AvoidEdge: func(b *cfg.Block, s int) bool { return x.edgeHas(hs, p, b, s, depth) },
+		TargetExit: func(b *cfg.Block, k cfgq.ExitKind) bool {
+			if !c07.NormalExit(b, k) {
+				return false
+			}
+			if outcome == nil {
+				return true
+			}
+			if len(b.Nodes) == 0 {
+				return false
+			}
+			ret, ok := b.Nodes[len(b.Nodes)-1].(*ast.ReturnStmt)
+			if !ok || len(ret.Results) != 1 {
+				return false
+			}
+			if tv, ok := x.info.Types[ret.Results[0]]; ok && tv.Value != nil {
+				return (tv.Value.String() == "true") == *outcome
+			}
+			x.opaque = true // a computed outcome: not followed
+			return true
+		}})
+	return w == nil
+}
+
+type wsite struct {
+	sc *wscope
+	p  cfgq.Point
+}
+
+// sites lists the nodes accepted by direct in sc and in the helpers that sc hands the element to.
+func (x *rx) sites(sc *wscope, direct func(sc *wscope, n ast.Node) bool, depth int) []wsite {
+	var out []wsite
+	for _, p := range sc.g.Points(func(n ast.Node) bool { return c07.Within(n, sc.root) }) {
+		if direct(sc, p.Node()) {
+			out = append(out, wsite{sc, p})
+		}
+		if depth < maxFollow {
+			for _, call := range cfgq.ExecCalls(p.Node()) {
+				if hs := x.sub(sc, call); hs != nil {
+					out = append(out, x.sites(hs, direct, depth+1)...)
+				}
+			}
+		}
+	}
+	return out
+}
+
+// verdict records a path-query result; a failure while some helper taking the element could not be followed is
+// UNDECIDED, not a violation.
+func (x *rx) verdict(rule, key string, pos token.Pos, w []string, detail string) {
+	if w != nil && x.opaque {
+		x.c.Undecidedf(rule, key, pos, "not established, but a helper that is handed the element could not be followed: %s", detail)
+		return
+	}
+	x.c.Check(rule, key, pos, w == nil, detail, w...)
+}
+
 func (x *rx) writer() {
 	fn := x.fn["writer"]
 	g := x.g("writer")
@@ -481,15 +628,21 @@ func (x *rx) writer() {
 	ele := core.ObjOf(x.info, rs.Key)
 	head, body := c07.RangeBlocks(g, rs)
 	start := cfgq.Point{B: body}
+	top := &wscope{g: g, ele: ele, root: rs.Body}
 	toHead := func(b *cfg.Block, s int) bool { return b.Succs[s] == head }
-	isRestore := x.cmdNode("Send", "RESTORE")
+	hasCmd := func(m, cm string) func(*wscope, ast.Node) bool {
+		return func(_ *wscope, n ast.Node) bool { return x.cmdNode(m, cm)(n) }
+	}
+	restoreP := wprop{node: hasCmd("Send", "RESTORE")}
+	isRestore := func(n ast.Node) bool { return x.nodeHas(top, restoreP, n, 0) } // in the loop: a send, or a helper that always sends
 	isSelect := x.cmdNode("Send", "SELECT")
 	bigF := x.c.LookupFunc(pkgCommon, "", "RestoreBigkey")
 	if bigF == nil {
 		x.c.Undecidedf("anchor", pkgCommon+".RestoreBigkey", token.NoPos, "anchor missing")
 		return
 	}
-	isBig := x.callNode(bigF.Obj)
+	bigP := wprop{node: func(_ *wscope, n ast.Node) bool { return x.callNode(bigF.Obj)(n) }}
+	isBig := func(n ast.Node) bool { return x.nodeHas(top, bigP, n, 0) }
 	// batch variable: x = append(x, ele)
 	var batch types.Object
 	isAppend := func(n ast.Node) bool {
@@ -500,30 +653,42 @@ func (x *rx) writer() {
 		batch = core.ObjOf(x.info, b["_b"].(ast.Expr))
 		return true
 	}
-	appends := g.Points(isAppend)
-	restores := g.Points(isRestore)
-	if len(appends) == 0 || len(restores) == 0 || ele == nil {
-		x.c.Undecidedf("R2.batch", "writer", rs.Pos(), "writer loop: found %d `batch = append(batch, ele)` and %d Send(\"RESTORE\") sites", len(appends), len(restores))
+	inLoop := func(pred func(ast.Node) bool) []cfgq.Point {
+		return g.Points(func(n ast.Node) bool { return c07.Within(n, rs.Body) && pred(n) })
+	}
+	appends := inLoop(isAppend)
+	restores := inLoop(isRestore)
+	sends := x.sites(top, restoreP.node, 0)
+	if len(appends) == 0 || len(restores) == 0 || len(sends) == 0 || ele == nil {
+		x.c.Undecidedf("R2.batch", "writer", rs.Pos(), "writer loop: found %d `batch = append(batch, ele)` and %d Send(\"RESTORE\") sites (in the loop or in helpers handed the element)", len(appends), len(sends))
 		return
 	}
 	// R2: append only after a send; no two sends / two appends per iteration; final flush uses the batch
 	for i, ap := range appends {
 		w := g.Path(cfgq.Query{From: start, Avoid: isRestore, Target: c07.IsNode(ap.Node())})
-		x.check("R2.batch", fmt.Sprintf("writer/append-after-send#%d", i+1), ap.Node().Pos(), w, "a key is put into the batch without a RESTORE having been sent for it: receiver waits for a reply that never comes and the run never terminates")
+		x.verdict("R2.batch", fmt.Sprintf("writer/append-after-send#%d", i+1), ap.Node().Pos(), w, "a key is put into the batch without a RESTORE having been sent for it: receiver waits for a reply that never comes and the run never terminates")
 		w = g.Path(cfgq.Query{From: ap, After: true, Target: isAppend, AvoidEdge: toHead})
 		x.check("R2.batch", fmt.Sprintf("writer/one-append#%d", i+1), ap.Node().Pos(), w, "one key is appended to the batch twice: receiver expects two replies for one command and blocks forever on the last one")
 	}
 	var conns []string
-	for i, rp := range restores {
-		w := g.Path(cfgq.Query{From: rp, After: true, Target: isRestore, AvoidEdge: toHead})
-		x.check("R2.restore-send", fmt.Sprintf("writer/one-send#%d", i+1), rp.Node().Pos(), w, "two RESTORE commands are sent for one key: without REPLACE the second fails with BUSYKEY and receiver aborts the run although nothing is wrong")
-		for _, call := range cfgq.ExecCalls(rp.Node()) {
+	for i, st := range sends {
+		// at most one send per element: inside its function, and among the loop's send nodes
+		direct := func(n ast.Node) bool { return restoreP.node(st.sc, n) }
+		var w []string
+		if st.sc == top {
+			w = g.Path(cfgq.Query{From: st.p, After: true, Target: isRestore, AvoidEdge: toHead})
+		} else {
+			w = st.sc.g.Path(cfgq.Query{From: st.p, After: true, Target: direct})
+		}
+		x.check("R2.restore-send", fmt.Sprintf("writer/one-send#%d", i+1), st.p.Node().Pos(), w, "two RESTORE commands are sent for one key: without REPLACE the second fails with BUSYKEY and receiver aborts the run although nothing is wrong")
+		for _, call := range cfgq.ExecCalls(st.p.Node()) {
 			m, cm, recv := cmd(x.info, call)
 			if m != "Send" || cm != "RESTORE" {
 				continue
 			}
 			conns = append(conns, x.field(recv))
-			okArgs := len(call.Args) >= 4 && x.eleField(call.Args[1], ele, "key") && x.eleField(call.Args[2], ele, "pttl") && x.eleField(call.Args[3], ele, "value")
+			e := st.sc.ele
+			okArgs := len(call.Args) >= 4 && x.eleField(call.Args[1], e, "key") && x.eleField(call.Args[2], e, "pttl") && x.eleField(call.Args[3], e, "value")
 			replace := false
 			if len(call.Args) == 5 {
 				s, _ := core.StringConst(x.info, call.Args[4])
@@ -538,11 +703,21 @@ func (x *rx) writer() {
 			}
 			x.c.Check("R2.restore-send", "writer/args:"+variant, call.Pos(), okArgs, "RESTORE must be sent as (key, pttl, value[, REPLACE]) of the element taken from keyChan; found `"+x.c.Src(call)+"`: the key is restored under another name / with another TTL or payload")
 			if !replace {
-				okPol, w := g.OnlyViaFact(rp, func(f cfgq.Fact) bool {
-					return !f.Val && isRewrite(x.info, f.Expr, true) || f.Val && isRewrite(x.info, f.Expr, false)
-				})
-				x.c.Check("R2.restore-send", "writer/replace-on-rewrite", call.Pos(), okPol, "with key_exists=rewrite the RESTORE must carry REPLACE; this send without REPLACE is reachable under rewrite, so an existing target key answers BUSYKEY and the run aborts instead of overwriting", w...)
+				sg := st.sc.g
+				tn := st.p.Node()
+				w := sg.Path(cfgq.Query{From: sg.Entry(), Target: c07.IsNode(tn), AvoidEdge: func(b *cfg.Block, s int) bool {
+					return c07.EdgeFact(sg, b, s, func(f cfgq.Fact) bool {
+						return !f.Val && isRewrite(x.info, f.Expr, true) || f.Val && isRewrite(x.info, f.Expr, false)
+					})
+				}})
+				x.check("R2.restore-send", "writer/replace-on-rewrite", call.Pos(), w, "with key_exists=rewrite the RESTORE must carry REPLACE; this send without REPLACE is reachable under rewrite, so an existing target key answers BUSYKEY and the run aborts instead of overwriting")
 			}
+		}
+	}
+	for i := 1; i < len(restores); i++ { // two send nodes in one iteration of the loop
+		w := g.Path(cfgq.Query{From: restores[i-1], After: true, Target: c07.IsNode(restores[i].Node()), AvoidEdge: toHead})
+		if w != nil {
+			x.check("R2.restore-send", "writer/one-send", restores[i].Node().Pos(), w, "two RESTORE commands are sent for one key: without REPLACE the second fails with BUSYKEY and receiver aborts the run although nothing is wrong")
 		}
 	}
 	// final flush is given the batch
@@ -556,18 +731,25 @@ func (x *rx) writer() {
 		}
 	}
 	// big keys
-	bigs := g.Points(isBig)
+	bigs := inLoop(isBig)
 	for _, bp := range bigs {
 		w := g.Path(cfgq.Query{From: bp, After: true, Target: cfgq.Or(isRestore, isAppend), AvoidEdge: toHead})
 		x.check("R2.bigkey", "writer/bypass", bp.Node().Pos(), w, "a big key restored element by element also goes through the RESTORE/batch path: it is written twice (BUSYKEY aborts the run under key_exists=none)")
-		for _, call := range cfgq.ExecCalls(bp.Node()) {
+	}
+	var bigArg *ast.CallExpr
+	for _, st := range x.sites(top, bigP.node, 0) {
+		for _, call := range cfgq.ExecCalls(st.p.Node()) {
 			if core.CalleeFunc(x.info, call) != bigF.Obj || len(call.Args) != 6 {
 				continue
 			}
-			okArgs := x.eleField(call.Args[1], ele, "key") && x.eleField(call.Args[2], ele, "value") && x.eleField(call.Args[3], ele, "pttl") && x.eleField(call.Args[4], ele, "db")
+			e := st.sc.ele
+			okArgs := x.eleField(call.Args[1], e, "key") && x.eleField(call.Args[2], e, "value") && x.eleField(call.Args[3], e, "pttl") && x.eleField(call.Args[4], e, "db")
 			x.c.Check("R2.bigkey", "writer/args", call.Pos(), okArgs, "RestoreBigkey must be given (key, value, pttl, db) of this element in parameter order; found `"+x.c.Src(call)+"`")
 			sep := x.field(call.Args[0]) != "" && len(conns) > 0 && x.field(call.Args[0]) != conns[0]
 			x.c.Check("R2.bigkey", "writer/own-connection", call.Pos(), sep, "big keys must use a connection other than the pipelined one: RestoreBigkey's Do() would consume the pending RESTORE replies that receiver is waiting for, and receiver blocks forever")
+			if st.sc == top {
+				bigArg = call
+			}
 		}
 	}
 	if len(bigs) == 0 {
@@ -575,34 +757,44 @@ func (x *rx) writer() {
 	}
 	// R3 ttl
 	writes := cfgq.Or(isRestore, isBig)
-	pttl := func(e ast.Expr) bool { return x.eleField(e, ele, "pttl") }
-	setZero := func(n ast.Node) bool {
+	pttl := func(sc *wscope) func(ast.Expr) bool {
+		return func(e ast.Expr) bool { return x.eleField(e, sc.ele, "pttl") }
+	}
+	notMinus := func(k int64) func(sc *wscope, f cfgq.Fact) bool {
+		return func(sc *wscope, f cfgq.Fact) bool { eq, ok := intCmp(x.info, f, pttl(sc), k); return ok && !eq }
+	}
+	zeroP := wprop{fact: notMinus(-1), node: func(sc *wscope, n ast.Node) bool {
 		as, ok := n.(*ast.AssignStmt)
 		v, isC := int64(1), false
-		if ok && len(as.Lhs) == 1 && len(as.Rhs) == 1 && pttl(as.Lhs[0]) {
+		if ok && len(as.Lhs) == 1 && len(as.Rhs) == 1 && pttl(sc)(as.Lhs[0]) {
 			v, isC = core.IntConst(x.info, as.Rhs[0])
 		}
 		return isC && v == 0
+	}}
+	goneP := wprop{fact: notMinus(-2)}
+	has := func(p wprop) (func(ast.Node) bool, func(*cfg.Block, int) bool) {
+		return func(n ast.Node) bool { return x.nodeHas(top, p, n, 0) }, func(b *cfg.Block, s int) bool { return x.edgeHas(top, p, b, s, 0) }
 	}
-	notMinus := func(k int64) func(*cfg.Block, int) bool {
-		return func(b *cfg.Block, s int) bool {
-			return c07.EdgeFact(g, b, s, func(f cfgq.Fact) bool { eq, ok := intCmp(x.info, f, pttl, k); return ok && !eq })
-		}
-	}
+	zn, ze := has(zeroP)
 	for i, rp := range restores {
-		w := g.Path(cfgq.Query{From: start, Avoid: setZero, AvoidEdge: notMinus(-1), Target: c07.IsNode(rp.Node())})
-		x.check("R3.ttl", fmt.Sprintf("writer/no-expiry-to-0#%d", i+1), rp.Node().Pos(), w, "a key without expiry (PTTL -1) must be sent with ttl 0: `RESTORE k -1 ...` is rejected (Invalid TTL value), receiver aborts and the run stops on the first persistent key")
+		w := g.Path(cfgq.Query{From: start, Avoid: zn, AvoidEdge: ze, Target: c07.IsNode(rp.Node())})
+		x.verdict("R3.ttl", fmt.Sprintf("writer/no-expiry-to-0#%d", i+1), rp.Node().Pos(), w, "a key without expiry (PTTL -1) must be sent with ttl 0: `RESTORE k -1 ...` is rejected (Invalid TTL value), receiver aborts and the run stops on the first persistent key")
 	}
-	w := g.Path(cfgq.Query{From: start, AvoidEdge: notMinus(-2), Target: writes})
-	x.check("R3.ttl", "writer/vanished-skipped", rs.Pos(), w, "a key that vanished between SCAN and PTTL (PTTL -2, empty DUMP) must be skipped: restoring its empty payload fails (bad payload / invalid TTL) and aborts the run instead of continuing")
+	gn, ge := has(goneP)
+	w := g.Path(cfgq.Query{From: start, Avoid: gn, AvoidEdge: ge, Target: writes})
+	x.verdict("R3.ttl", "writer/vanished-skipped", rs.Pos(), w, "a key that vanished between SCAN and PTTL (PTTL -2, empty DUMP) must be skipped: restoring its empty payload fails (bad payload / invalid TTL) and aborts the run instead of continuing")
 	// R3 db override
-	dbF := func(e ast.Expr) bool { return x.eleField(e, ele, "db") }
-	setDB := func(n ast.Node) bool {
-		as, ok := n.(*ast.AssignStmt)
-		return ok && len(as.Lhs) == 1 && len(as.Rhs) == 1 && dbF(as.Lhs[0]) && core.IsFieldNamed(x.info, c07.Strip(x.info, as.Rhs[0]), "Configuration", "TargetDB")
+	dbOf := func(sc *wscope) func(ast.Expr) bool {
+		return func(e ast.Expr) bool { return x.eleField(e, sc.ele, "db") }
 	}
+	dbF := dbOf(top)
+	setDB := func(sc *wscope, n ast.Node) bool {
+		as, ok := n.(*ast.AssignStmt)
+		return ok && len(as.Lhs) == 1 && len(as.Rhs) == 1 && dbOf(sc)(as.Lhs[0]) && core.IsFieldNamed(x.info, c07.Strip(x.info, as.Rhs[0]), "Configuration", "TargetDB")
+	}
+	overP := wprop{node: setDB, fact: func(_ *wscope, f cfgq.Fact) bool { return c07.TargetDBSet(x.info, f, false) }}
 	usesDB := func(n ast.Node) bool {
-		if setDB(n) {
+		if setDB(top, n) {
 			return false
 		}
 		found := false
@@ -614,17 +806,23 @@ func (x *rx) writer() {
 		})
 		return found
 	}
-	unset := func(b *cfg.Block, s int) bool {
-		return c07.EdgeFact(g, b, s, func(f cfgq.Fact) bool { return c07.TargetDBSet(x.info, f, false) })
+	on, oe := has(overP)
+	w = g.Path(cfgq.Query{From: start, Avoid: on, AvoidEdge: oe, Target: usesDB})
+	x.verdict("R3.db", "writer/target-db-override", rs.Pos(), w, "with target.db configured every key must go to that database: here the element's source db is used although TargetDB != -1")
+	sets := x.sites(top, setDB, 0)
+	okSet := len(sets) > 0
+	for _, st := range sets {
+		sg, tn := st.sc.g, st.p.Node()
+		wp := sg.Path(cfgq.Query{From: sg.Entry(), Target: c07.IsNode(tn), AvoidEdge: func(b *cfg.Block, s int) bool {
+			return c07.EdgeFact(sg, b, s, func(f cfgq.Fact) bool { return c07.TargetDBSet(x.info, f, true) })
+		}})
+		okSet = okSet && wp == nil
 	}
-	w = g.Path(cfgq.Query{From: start, Avoid: setDB, AvoidEdge: unset, Target: usesDB})
-	x.check("R3.db", "writer/target-db-override", rs.Pos(), w, "with target.db configured every key must go to that database: here the element's source db is used although TargetDB != -1")
-	okSet := len(g.Points(setDB)) > 0
-	for _, p := range g.Points(setDB) {
-		ok, _ := g.OnlyViaFact(p, func(f cfgq.Fact) bool { return c07.TargetDBSet(x.info, f, true) })
-		okSet = okSet && ok
+	if len(sets) == 0 && x.opaque {
+		x.c.Undecidedf("R3.db", "writer/override-only-when-set", rs.Pos(), "no `ele.db = TargetDB` found, but a helper handed the element could not be followed")
+	} else {
+		x.c.Check("R3.db", "writer/override-only-when-set", rs.Pos(), okSet, "ele.db = TargetDB must happen exactly under TargetDB != -1: unconditionally it selects db -1 (error, run aborts) when no target db is configured")
 	}
-	x.c.Check("R3.db", "writer/override-only-when-set", rs.Pos(), okSet, "ele.db = TargetDB must happen exactly under TargetDB != -1: unconditionally it selects db -1 (error, run aborts) when no target db is configured")
 	// R3 select tracking
 	var tracker types.Object
 	core.Inspect(rs.Body, func(n ast.Node) bool {
@@ -642,15 +840,11 @@ func (x *rx) writer() {
 		return
 	}
 	x.selectRules("writer", g, start, head, tracker, func(e ast.Expr) bool { return core.ObjOf(x.info, c07.Strip(x.info, e)) == tracker }, dbF, isSelect, restores, rs)
-	for _, bp := range bigs {
-		for _, call := range cfgq.ExecCalls(bp.Node()) {
-			if core.CalleeFunc(x.info, call) == bigF.Obj && len(call.Args) == 6 {
-				u, ok := ast.Unparen(call.Args[5]).(*ast.UnaryExpr)
-				own := ok && u.Op == token.AND && core.ObjOf(x.info, u.X) != tracker && core.ObjOf(x.info, u.X) != nil
-				okDecl := own && !(rs.Body.Pos() <= core.ObjOf(x.info, u.X).Pos() && core.ObjOf(x.info, u.X).Pos() < rs.Body.End())
-				x.c.Check("R3.select", "writer/bigkey-own-tracker", call.Pos(), okDecl, "the big-key connection needs its own selected-db variable, living across iterations: sharing the pipelined connection's tracker makes later normal keys skip their SELECT and land in the wrong database")
-			}
-		}
+	if bigArg != nil {
+		u, ok := ast.Unparen(bigArg.Args[5]).(*ast.UnaryExpr)
+		own := ok && u.Op == token.AND && core.ObjOf(x.info, u.X) != tracker && core.ObjOf(x.info, u.X) != nil
+		okDecl := own && !(rs.Body.Pos() <= core.ObjOf(x.info, u.X).Pos() && core.ObjOf(x.info, u.X).Pos() < rs.Body.End())
+		x.c.Check("R3.select", "writer/bigkey-own-tracker", bigArg.Pos(), okDecl, "the big-key connection needs its own selected-db variable, living across iterations: sharing the pipelined connection's tracker makes later normal keys skip their SELECT and land in the wrong database")
 	}
 }
 
